@@ -356,6 +356,12 @@ class ST:
             return torch.device("cpu")
         if name == "dtype":
             return {"long": torch.long, "float": torch.float, "bool": torch.bool}[self.dtype]
+        ov = I.ex.ghost.get("method_overrides", {}).get(name)
+        if ov is not None:  # a sidecar's contract for this tensor method (e.g. softmax over a dimension the model does not cover)
+            class O_:
+                def __vc_call__(s, I, a, k):
+                    return ov(I, t, *a, **k)
+            return O_()
         if name in METH:
             class M_:
                 def __vc_call__(s, I, a, k):
@@ -1215,8 +1221,19 @@ def _repeat(I, t, *reps):
     """repeat of a rank-1 tensor: r copies one after the other, out[i] = t[i mod n]"""
     if len(reps) == 1 and isinstance(reps[0], (tuple, list)):
         reps = tuple(reps[0])
-    if len(t.shape) != 1 or len(reps) != 1:
-        raise Unsupported("repeat other than of a rank-1 tensor along its dimension")
+    if len(reps) != len(t.shape):
+        raise Unsupported("repeat with a number of counts other than the rank")
+    if len(t.shape) != 1:
+        # general form: along every dimension the copies follow each other, out[i...] = t[i_j mod n_j ...]; a count of 1 leaves the
+        # dimension alone
+        e, dims_r = t.elem, []
+        for n_j, r_j in zip(t.shape, reps):
+            if isinstance(r_j, int) and r_j == 1:
+                dims_r.append((n_j, None))
+            else:
+                I.ex.oblige("repeat.count_not_negative", to_z3(r_j) >= 0)
+                dims_r.append((z3.simplify(to_z3(r_j) * to_z3(n_j)), to_z3(n_j)))
+        return ST(tuple(d for d, _ in dims_r), lambda *idx: e(*[(i if m is None else to_z3(i) % m) for i, (_, m) in zip(idx, dims_r)]), t.dtype)
     n, e = to_z3(t.shape[0]), t.elem
     I.ex.oblige("repeat.count_not_negative", to_z3(reps[0]) >= 0)
     return ST((to_z3(reps[0]) * n,), lambda i: e(to_z3(i) % n), t.dtype)
